@@ -21,8 +21,9 @@ import units_common as uc
 
 LEVEL = "model_checking"
 RULE = ("cases = finished histories of the Units_MC generation slices (TLC) + seeded histories judged by "
-        "UnitsTrace; distinct = distinct (quantity as written, operation list); non-trivial = some unit "
-        "ratio in the history differs from 1 or the operation is a refusal/registry/helper question")
+        "UnitsTrace; distinct = distinct (quantity as written, operation list); every case carries at least one "
+        "operation on a unit-carrying quantity (conversion to a different unit expression, refusal, registry or "
+        "helper question), so every distinct case counts as non-trivial")
 ASSUMPTIONS = [
     "the catalog in spec/Units.tla (dimension and size of each named unit relative to SI) is the reference; "
     "it was written from the SI definitions, not read from quantities",
@@ -33,19 +34,11 @@ ASSUMPTIONS = [
 ]
 
 QUICK = ["single_q", "pair_q", "hist_q", "reg_q", "derived_q", "help_q", "bexp"]
-THOROUGH = ["single_t", "pair_t", "triple_t", "hist_t", "reg_t", "derived_t", "own_t", "help_t", "bexp"]
+THOROUGH = ["single_t", "pair_t", "triple_t", "hist_q", "hist_t", "reg_q", "reg_t", "derived_t", "own_t", "help_q", "help_t", "bexp"]
 INV = {"quick": "inv_q", "thorough": "inv_t"}
-ACTIONS = {
-    "inv_q": ["GenAddFactor", "GenSeal", "GenConvert", "GenBack", "GenVia", "GenScale", "GenContainer",
-              "GenIncompatible", "GenDimensionality", "GenDefaultUnit", "GenUnitlessIn", "GenDerived",
-              "GenRoundTrip", "GenBackendExp", "GenHelper"],
-    "single_q": ["GenConvert", "GenIncompatible", "GenFinish"],
-    "hist_q": ["GenConvert", "GenBack", "GenVia", "GenScale", "GenContainer", "GenIncompatible"],
-    "reg_q": ["GenDimensionality", "GenDefaultUnit", "GenUnitlessIn"],
-    "derived_q": ["GenDerived", "GenRoundTrip"],
-    "help_q": ["GenHelper"],
-    "bexp": ["GenBackendExp"],
-}
+ACTIONS = {"inv": ["GenAddFactor", "GenSeal", "GenConvert", "GenBack", "GenVia", "GenScale", "GenContainer",
+                   "GenIncompatible", "GenDimensionality", "GenDefaultUnit", "GenUnitlessIn", "GenDerived",
+                   "GenRoundTrip", "GenBackendExp", "GenHelper"]}
 NUM = 4
 
 
@@ -329,10 +322,6 @@ def _key(case, i, a, clause):
     return key
 
 
-def _nontrivial(case):
-    return True
-
-
 # --------------------------------------------------------------------------- code -> spec traces
 def _enc(v):
     f = uc.enc_float(v)
@@ -349,6 +338,8 @@ def trace_of(cin, obs):
         e = {"ev": op}
         if "error" in o:
             e = {"ev": "error", "op": op, "exc": o["error"]}
+            if "reg" in a:
+                e["reg"] = a["reg"]
             ev.append(e)
             break
         if op in ("convert", "back"):
@@ -376,7 +367,7 @@ def trace_of(cin, obs):
                      units=[{"d": k, "dim": {kk: o["units"][k]["dim"].get(kk, 0) for kk in uc.DIMS},
                              "si": _enc(o["units"][k]["si"]), "factor": _enc(o["factors"][k])} for k in uc.DIMS])
         elif op == "bexp":
-            e.update(raised=bool(o["raised"]))
+            e.update(raised=bool(o["raised"]), exc=o.get("exc", ""))
         else:
             continue
         ev.append(e)
@@ -482,34 +473,35 @@ def _run_history_q(mag, h):
     return out
 
 
-def _catalog_from_cases(ctx):
-    """name -> dimension tuple, derived-unit keys and registries, exported by the spec"""
-    res = ctx.tlc("Units_MC", "Units_MC_catalog.cfg", require_cases=1, timeout=300, workers=1)
-    meta = [c for c in res.cases if c.get("cls") == "catalog"][0]
-    cat = {n: tuple(v["dim"][k] for k in uc.DIMS) for n, v in meta["exp"]["cat"].items()}
-    return cat, meta["exp"]["keys"], meta["exp"]["regs"]
-
-
 # --------------------------------------------------------------------------- run
+REQUIRED_OPS = {"convert", "back", "via", "scale", "container", "incompatible", "dimensionality", "defunit",
+                "unitless", "derived", "roundtrip", "bexp", "helper"}
+
+
 def run(ctx):
     import core
     tier = "quick" if ctx.quick else "thorough"
-    # 1. the laws on the model (history hidden by a VIEW)
-    inv = INV[tier]
-    ctx.tlc("Units_MC", "Units_MC_%s.cfg" % inv, require_actions=ACTIONS["inv_q"], timeout=1500)
+    slices = QUICK if ctx.quick else THOROUGH
+    # 1. the laws on the model (history hidden by a VIEW), 2. generation slices, catalog export
+    jobs = [dict(module="Units_MC", cfg="Units_MC_%s.cfg" % INV[tier], require_actions=ACTIONS["inv"], workers=6),
+            dict(module="Units_MC", cfg="Units_MC_catalog.cfg", require_cases=1, workers=1)]
+    jobs += [dict(module="Units_MC", cfg="Units_MC_%s.cfg" % sl, require_cases=30) for sl in slices]
+    results = uc.tlc_many(ctx, jobs, workers=4, parallel=5 if ctx.quick else 4)
+    meta = [c for c in results[1].cases if c.get("cls") == "catalog"][0]["exp"]
+    cat = {n: tuple(v["dim"][k] for k in uc.DIMS) for n, v in meta["cat"].items()}
 
     # 2. spec -> code
-    per_slice = 1500 if ctx.quick else None
+    per_slice = 1200 if ctx.quick else None
     skipped_eq = 0
-    for sl in (QUICK if ctx.quick else THOROUGH):
-        res = ctx.tlc("Units_MC", "Units_MC_%s.cfg" % sl, require_actions=ACTIONS.get(sl, ()),
-                      require_cases=50, timeout=1500)
+    seen_ops = set()
+    for sl, res in zip(slices, results[2:]):
         sel = ctx.pick(res.cases, per_slice)
         outs = ctx.pmap(replay_case, sel)
         ctx.cases_replayed += len(sel)
         for case, (bad, obs) in zip(sel, outs):
-            ctx.ran({"mag": case["in"]["mag"], "ux": case["in"]["ux"], "ops": case["in"]["ops"]}, nontrivial=_nontrivial(case))
+            ctx.ran({"mag": case["in"]["mag"], "ux": case["in"]["ux"], "ops": case["in"]["ops"]})
             for a, e in zip(case["in"]["ops"], case["exp"]["obs"]):
+                seen_ops.add(a["op"])
                 if a["op"] == "helper" and a["name"] == "compare_equality" and e["same"]:
                     skipped_eq += 1
             for i, a, clause, o in bad:
@@ -519,18 +511,20 @@ def run(ctx):
         if sel:
             c = sel[0]
             ctx.sample({"slice": sl, "in": c["in"], "exp": c["exp"]["obs"]}, cap=8)
+    if REQUIRED_OPS - seen_ops:
+        raise core.MachineryFailure("vacuity: no replayed case exercises %s" % sorted(REQUIRED_OPS - seen_ops))
     if skipped_eq:
-        ctx.skip("compare_equality of physically equal values in different units (equality of rounded doubles is not decided)", skipped_eq)
+        ctx.skip("compare_equality of physically equal values written in different units (equality of "
+                 "independently rounded doubles is not decided)", skipped_eq)
     ctx.exhaustive = not ctx.quick
 
     # 3. code -> spec
-    cat, keys, regs = _catalog_from_cases(ctx)
-    n = 1500 if ctx.quick else 20000
-    g = Gen(ctx.rng, cat, regs, keys, max_factors=4 if ctx.quick else 5, max_ops=4 if ctx.quick else 6)
+    n = 1000 if ctx.quick else 16000
+    g = Gen(ctx.rng, cat, meta["regs"], meta["keys"], max_factors=4 if ctx.quick else 5, max_ops=4 if ctx.quick else 6)
     hs = [g.history() for _ in range(n)]
     outs = ctx.pmap(_run_trace, hs)
     traces = [t for t, _ in outs]
-    verdicts = ctx.validate_traces("UnitsTrace", "UnitsTrace.cfg", traces, chunk=2500)
+    verdicts = ctx.validate_traces("UnitsTrace", "UnitsTrace.cfg", traces, chunk=4000, env=uc.TLC_ENV)
     for h, (tr, obs), (v, pos, clause) in zip(hs, outs, verdicts):
         ctx.ran({"mag": h["magq"], "ux": h["ux"], "ops": h["ops"]})
         if v == "accept":
@@ -541,8 +535,9 @@ def run(ctx):
         opname = a.get("op", a.get("ev", "?"))
         key = {"fn": _fn_of({"op": opname}), "op": opname, "clause": clause}
         if opname == "roundtrip":
-            key["amount"] = a.get("reg", {}).get("amount")
-            key["length"] = a.get("reg", {}).get("length")
+            reg = a.get("reg", {})
+            key["amount"] = reg.get("amount")
+            key["length"] = reg.get("length")
         ctx.violation(key, {"direction": "code->spec", "trace": tr, "history": h, "observed": obs,
                             "verdict": {"verdict": v, "pos": pos, "clause": clause}, "tlc_cfg": "UnitsTrace.cfg"})
     if traces:
@@ -557,6 +552,6 @@ def replay(ctx, rec):
                                        "expected": rec["case"]["exp"]["obs"][i]})
     else:
         tr, obs = _run_trace(rec["history"])
-        v, pos, clause = ctx.validate_traces("UnitsTrace", "UnitsTrace.cfg", [tr])[0]
+        v, pos, clause = ctx.validate_traces("UnitsTrace", "UnitsTrace.cfg", [tr], env=uc.TLC_ENV)[0]
         if v != "accept":
             ctx.violation(rec["key"], {"observed": obs, "verdict": {"verdict": v, "pos": pos, "clause": clause}})
